@@ -64,3 +64,22 @@ package sstable
 //@   check[C11] before call (*BlockManager).AddWithSequence#1: w.bloomFilterEnabled ==> bloomAdds > old(bloomAdds)
 //@   ghost after call (*BlockBloomFilterBuilder).AddKey#1: bloomAdds = bloomAdds + 1
 //@ ghost global bloomAdds int
+
+// ---- C02: a table file becomes visible under its final name only after all of its bytes were written and fsynced:
+// Finish renames (FinalizeFile) only after a successful Sync, every error exit before that leaves the rename count
+// unchanged; FinalizeFile renames only after the file was closed.
+//@ func (*FileManager).Sync
+//@   modifies filesyncs
+//@   ensures[C02] filesyncs == old(filesyncs) + 1
+//@ func (*FileManager).FinalizeFile
+//@   modifies renames, fm.file
+//@   ensures[C02] renames <= old(renames) + 1
+//@   ensures[C02] err == nil ==> renames == old(renames) + 1
+//@ func (*Writer).Finish
+//@   requires WriterInv(w)
+//@   ghost after call (*FileManager).Sync#1: tableSynced = (err == nil)
+//@   ghost entry: tableSynced = false
+//@   check[C02] before call (*FileManager).FinalizeFile#1: tableSynced
+//@   ensures[C02] renames <= old(renames) + 1
+//@   ensures[C02] renames > old(renames) ==> tableSynced
+//@ ghost global tableSynced bool
